@@ -21,7 +21,7 @@ MANIFEST = {
              'algorithmic invariant over run histories and is not decided. g is uc::ACC_GRAV (checked to lie in [9.78, 9.83]). Reals.'),
 }
 EXPLANATION = 'SVN terms of update_res / calc_res per direction vs the physical reference formulas; provenance of reported front/back values.'
-RULES = ['C07-1.forces', 'C07-2.strap', 'C07-3.report', 'C07-4.resnet', 'C07-5.aggregate', 'C07-6.fresh', 'C07-7.sibling', 'C07-8.index', 'C07-9.profile', 'C07-10.braking']
+RULES = ['C07-1.forces', 'C07-2.strap', 'C07-3.report', 'C07-4.resnet', 'C07-5.aggregate', 'C07-6.fresh', 'C07-7.sibling', 'C07-8.index', 'C07-9.profile', 'C07-10.braking', 'C07-11.mass']
 ASSUMPTIONS = ['train length > 0', 'cached indices are correct for the current offsets (not decided)', 'identities over the reals']
 
 DIRS = ((0, 'Unk'), (1, 'Fwd'), (2, 'Bwd'))
@@ -44,6 +44,10 @@ def run(ctx):
     # position it is evaluated for (clause of C03-1, shared)
     from . import C03
     C03.anchor(RuleProxy(ctx, {'C03-1.anchor': 'C07-10.braking'}, key_filter=lambda k: k.endswith('|resistance state')))
+    # weight = static mass · g, rolling / Davis-B are mass-weighted: the static mass handed to the train state (towed mass from the car
+    # mix + consist mass, the sums of C20-7) is a premise of every resistance term and is reported under this property as well
+    from . import C20
+    C20.sums(RuleProxy(ctx, {'C20-7.sums': 'C07-11.mass'}, key_filter=lambda k: not k.startswith('Consist::force_max')))
     prog = ctx.prog
     eng = engine(ctx)
     g = eng.const_value('uc::ACC_GRAV')
